@@ -55,6 +55,9 @@ class Translator:
         self.drop = set(drop)
         self.noop = [re.compile(x) for x in noop]
         self.nooped = []
+        self.talloc = {}
+        self.vt_aps = None
+        self.vcall_n = 0
         self.cut = []
         self.cutted = []
         self.watch = watch
@@ -677,6 +680,62 @@ class Translator:
                 return None
         return None
 
+    def alloc_elem_type(self, ins):
+        """element type of a heap block, inferred from the (unique) non-i8 pointer
+        type the result of operator new is bitcast to; None => byte block"""
+        found = None
+        bb = L.GetInstructionParent(ins)
+        fn = L.GetBasicBlockParent(bb)
+        for b in L.blocks(fn):
+            for u in L.instrs(b):
+                if L.GetInstructionOpcode(u) != L.OP["BitCast"]:
+                    continue
+                if L.GetOperand(u, 0) != ins:
+                    continue
+                t = L.TypeOf(u)
+                if not self.is_ptr(t):
+                    continue
+                et = L.GetElementType(t)
+                k = L.GetTypeKind(et)
+                if k == L.TK_Integer and L.GetIntTypeWidth(et) == 8:
+                    continue
+                if k == L.TK_Function or (k == L.TK_Struct and L.IsOpaqueStruct(et)) or not L.TypeIsSized(et):
+                    return None
+                if L.ABISizeOfType(self.td, et) == 0:
+                    return None
+                if found is not None and found != et:
+                    return None
+                found = et
+        return found
+
+    def typed_alloc(self, ety, nconst):
+        esz = L.ABISizeOfType(self.td, ety)
+        if nconst is not None:
+            cap = str(max(1, (nconst + esz - 1) // esz))
+        else:
+            cap = "((VERIF_MAX_ALLOC + %d - 1) / %d)" % (esz, esz)
+        key = (ety, cap)
+        if key not in self.talloc:
+            self.talloc[key] = len(self.talloc)
+            self.ctype(ety)
+        return self.talloc[key]
+
+    def emit_typed_allocs(self):
+        out = []
+        for (ety, cap), k in sorted(self.talloc.items(), key=lambda x: x[1]):
+            ct = self.ctype(ety)
+            out.append("#ifdef __CPROVER__")
+            out.append("struct VH_%d { uint64_t size; %s payload[%s]; };" % (k, ct, cap))
+            out.append("static void *verif_new_%d(uint64_t n) {" % k)
+            out.append("  __CPROVER_assert(n <= sizeof(((struct VH_%d*)0)->payload), \"allocation bound: typed request exceeds the block capacity (unwinding assertion)\");" % k)
+            out.append("  __CPROVER_assume(n <= sizeof(((struct VH_%d*)0)->payload));" % k)
+            out.append("  struct VH_%d *b = (struct VH_%d *)malloc(sizeof(struct VH_%d)); __CPROVER_assume(b != 0);" % (k, k, k))
+            out.append("  b->size = n; return &b->payload[0]; }")
+            out.append("#else")
+            out.append("static void *verif_new_%d(uint64_t n) { void *p = malloc(n ? n : 1); return p; }" % k)
+            out.append("#endif")
+        return out
+
     def agg_path(self, ty, idxs):
         s = ""
         for i in idxs:
@@ -697,7 +756,7 @@ class Translator:
         w = self.width(L.TypeOf(o))
         return self.sx(self.val(o), w)
 
-    def gep(self, v, ops):
+    def gep(self, v, ops, lvalue=False):
         base = ops[0]
         bty = L.TypeOf(base)
         if not self.is_ptr(bty):
@@ -722,7 +781,20 @@ class Translator:
                 cur = L.GetElementType(cur)
             else:
                 raise Unsupported("gep into " + L.type_str(cur))
+        if lvalue:
+            return e
         return "(&%s)" % e
+
+    def deref(self, p):
+        """lvalue expression for *p; a GEP instruction is spelled out as a member/array
+        access so CBMC keeps the access inside the member (a temporary pointer with a
+        symbolic index degrades to a whole-object byte update)"""
+        if L.GetValueKind(p) == L.VK_Instruction and L.GetInstructionOpcode(p) == L.OP["GetElementPtr"]:
+            try:
+                return self.gep(p, L.operands(p), lvalue=True)
+            except Unsupported:
+                pass
+        return "*%s" % self.val(p)
 
     # ------------------------------------------------------------------ calls
     def note_extern(self, f):
@@ -807,9 +879,137 @@ class Translator:
         # indirect
         fty = L.GetCalledFunctionType(ins)
         ft = self.ctype(fty)
+        slot = self.virtual_slot(cv)
+        if slot is not None:
+            k, vptr = slot
+            cands = self.vtable_candidates(k, len(args), fty)
+            if cands:
+                # dispatch on the vptr value (address points of the known vtables): comparisons of
+                # addresses of distinct globals fold during symbolic execution, so a known dynamic
+                # type selects one callee instead of every function with a compatible signature
+                s = "{ void* vp = (void*)%s; " % self.val(vptr)
+                seen_pairs = set()
+                first = True
+                for (f, vg, arr_i, ap) in cands:
+                    key = (vg, arr_i, ap)
+                    if key in seen_pairs:
+                        continue
+                    seen_pairs.add(key)
+                    if vg not in self.seen:
+                        continue  # vtable not reachable from the entry: no object of that type exists
+                    cfty = L.GetElementType(L.TypeOf(f))
+                    ptys = L.param_types(cfty)
+                    al = []
+                    for x, pt in zip(args, ptys):
+                        if self.is_defined_fn(f):
+                            al.append(("(%s)%s" % (self.ctype(pt), self.val(x))) if self.is_ptr(pt) else self.val(x))
+                        else:
+                            al.append(("(void*)%s" % self.val(x)) if self.is_ptr(pt) else self.val(x))
+                    if not self.is_defined_fn(f):
+                        self.note_extern(f)
+                    call = "%s(%s)" % (self.cname(f), ", ".join(al))
+                    if has_res:
+                        call = "%s(%s)%s" % (dst, self.ctype(ty), call)
+                    s += "%sif (vp == (void*)&%s.f%d.a[%d]) { %s; } " % ("" if first else "else ", self.cname(vg), arr_i, ap, call)
+                    first = False
+                if not first:
+                    s += "else { __CPROVER_assert(0, \"ir2c: virtual call on an object whose vtable is not among the known ones\"); __CPROVER_assume(0); } }"
+                    lines.append(s)
+                    return self.may_unwind(ins, None)
         a = ", ".join(self.val(x) for x in args)
         lines.append("%s((%s*)%s)(%s);" % (dst, ft, self.val(cv), a))
         return self.may_unwind(ins, None)
+
+    def is_vtable_int_read(self, ins, p):
+        """load i64 from bitcast(gep i8 (load i8* from bitcast(obj -> i8**)), negative const)"""
+        ty = L.TypeOf(ins)
+        if not self.is_int(ty) or self.width(ty) != 64:
+            return False
+        if L.GetValueKind(p) != L.VK_Instruction or L.GetInstructionOpcode(p) != L.OP["BitCast"]:
+            return False
+        g = L.GetOperand(p, 0)
+        if L.GetValueKind(g) != L.VK_Instruction or L.GetInstructionOpcode(g) != L.OP["GetElementPtr"]:
+            return False
+        if L.GetNumOperands(g) != 2:
+            return False
+        idx = L.GetOperand(g, 1)
+        if L.GetValueKind(idx) != L.VK_ConstantInt or L.ConstIntGetSExtValue(idx) >= 0:
+            return False
+        base = L.GetOperand(g, 0)
+        bt = L.TypeOf(base)
+        if not (self.is_ptr(bt) and self.is_int(L.GetElementType(bt)) and self.width(L.GetElementType(bt)) == 8):
+            return False
+        if L.GetValueKind(base) != L.VK_Instruction or L.GetInstructionOpcode(base) != L.OP["Load"]:
+            return False
+        src = L.GetOperand(base, 0)
+        return L.GetValueKind(src) == L.VK_Instruction and L.GetInstructionOpcode(src) == L.OP["BitCast"]
+
+    def virtual_slot(self, cv):
+        """slot index if cv is  load(gep(load vptr, k))  or  load(load vptr)  (Itanium virtual call)"""
+        if L.GetValueKind(cv) != L.VK_Instruction or L.GetInstructionOpcode(cv) != L.OP["Load"]:
+            return None
+        p = L.GetOperand(cv, 0)
+        k = 0
+        if L.GetValueKind(p) == L.VK_Instruction and L.GetInstructionOpcode(p) == L.OP["GetElementPtr"]:
+            if L.GetNumOperands(p) != 2:
+                return None
+            idx = L.GetOperand(p, 1)
+            if L.GetValueKind(idx) != L.VK_ConstantInt:
+                return None
+            k = L.ConstIntGetSExtValue(idx)
+            p = L.GetOperand(p, 0)
+        if L.GetValueKind(p) == L.VK_Instruction and L.GetInstructionOpcode(p) == L.OP["Load"]:
+            if k < 0:
+                return None
+            return (k, p)
+        return None
+
+    def collect_vtables(self):
+        """address points of every vtable global: (array operand list, index)"""
+        if self.vt_aps is not None:
+            return
+        self.vt_aps = []
+        for g in L.globals_(self.mod):
+            nm = L.name_of(g)
+            if not (nm.startswith("_ZTV") or nm.startswith("_ZTC")) or L.IsDeclaration(g):
+                continue
+            init = L.GetInitializer(g)
+            if not init or L.GetValueKind(init) != L.VK_ConstantStruct:
+                continue
+            for arr_i, arr in enumerate(L.operands(init)):
+                if L.GetValueKind(arr) != L.VK_ConstantArray:
+                    continue
+                elems = L.operands(arr)
+                # Itanium layout: [vcall/vbase offsets..., offset-to-top, RTTI, functions...];
+                # the address point follows the RTTI pointer: first index whose predecessor is a typeinfo (or null RTTI after an integer)
+                ap = None
+                for i, e in enumerate(elems):
+                    b = self.strip_casts(e)
+                    if L.GetValueKind(b) == L.VK_GlobalVariable and L.name_of(b).startswith("_ZTI"):
+                        ap = i + 1
+                        break
+                if ap is None:
+                    ap = 2 if len(elems) >= 2 else None
+                if ap is not None:
+                    self.vt_aps.append((elems, ap, g, arr_i))
+
+    def vtable_candidates(self, slot, nargs, fty):
+        self.collect_vtables()
+        res = []
+        for elems, ap, vg, arr_i in self.vt_aps:
+            i = ap + slot
+            if i >= len(elems):
+                continue
+            f = self.strip_casts(elems[i])
+            if L.GetValueKind(f) != L.VK_Function:
+                continue
+            cfty = L.GetElementType(L.TypeOf(f))
+            if L.CountParamTypes(cfty) != nargs:
+                continue
+            if L.GetTypeKind(L.GetReturnType(cfty)) != L.GetTypeKind(L.GetReturnType(fty)):
+                continue
+            res.append((f, vg, arr_i, ap))
+        return res
 
     def special_call(self, ins, nm, args, dst, ty, lines):
         A = lambda i: self.val(args[i])
@@ -899,6 +1099,10 @@ class Translator:
         if nm == "__CPROVER_assume":
             lines.append("__CPROVER_assume(%s);" % A(0))
             return False
+        if nm == "verif_end":
+            # end of the harness: locals are deliberately not destroyed (destructor paths are not the subject)
+            lines.append("__CPROVER_assert(verif_exc == 0, \"no exception pending at the end of the harness\"); verif_end_native(); __CPROVER_assume(0);")
+            return False
         if nm == "verif_assert":
             s = self.string_operand(args[1])
             if s is None:
@@ -911,6 +1115,16 @@ class Translator:
         if nm == "__cxa_allocate_exception":
             lines.append("%s(%s)verif_alloc_exc(%s);" % (dst, self.ctype(ty), A(0)))
             return False
+        if nm in ("_Znwm", "_Znam") and not self.is_defined_fn(L.GetNamedFunction(self.mod, nm.encode())):
+            ety = self.alloc_elem_type(ins)
+            if ety is not None:
+                nconst = None
+                if L.GetValueKind(args[0]) == L.VK_ConstantInt:
+                    nconst = L.ConstIntGetZExtValue(args[0])
+                k = self.typed_alloc(ety, nconst)
+                lines.append("%s(%s)verif_new_%d(%s);" % (dst, self.ctype(ty), k, A(0)))
+                return False  # allocation failure is out of scope: never throws
+            return None
         if nm == "__cxa_free_exception":
             return False
         if nm == "__cxa_begin_catch":
@@ -1068,14 +1282,19 @@ class Translator:
                         lines.append("verif_chk((void*)%s, sizeof(*%s));" % (self.val(p), self.val(p)))
                     if self.watch and not self.is_stack_ptr(p):
                         lines.append("verif_access((void*)%s, sizeof(*%s), 0);" % (self.val(p), self.val(p)))
-                    lines.append("%s = *%s;" % (self.local[ins], self.val(p)))
+                    if self.is_vtable_int_read(ins, p):
+                        # Itanium vbase-offset / offset-to-top read: the vtable slot is pointer typed in
+                        # the mirrored C global; read it as a pointer and convert, so the constant folds
+                        lines.append("%s = (%s)(uint64_t)*(uint8_t**)%s;" % (self.local[ins], self.ctype(ty), self.val(p)))
+                    else:
+                        lines.append("%s = %s;" % (self.local[ins], self.deref(p)))
                 elif N == "Store":
                     p = L.GetOperand(ins, 1)
                     if not self.is_stack_ptr(p):
                         lines.append("verif_chk((void*)%s, sizeof(*%s));" % (self.val(p), self.val(p)))
                     if self.watch and not self.is_stack_ptr(p):
                         lines.append("verif_access((void*)%s, sizeof(*%s), 1);" % (self.val(p), self.val(p)))
-                    lines.append("*%s = %s;" % (self.val(p), self.val(L.GetOperand(ins, 0))))
+                    lines.append("%s = %s;" % (self.deref(p), self.val(L.GetOperand(ins, 0))))
                 elif N == "Ret":
                     if L.GetNumOperands(ins):
                         lines.append("return %s;" % self.val(L.GetOperand(ins, 0)))
@@ -1255,6 +1474,7 @@ class Translator:
         out.append("static uint64_t verif_tmp64;")
         out.extend(self.emit_types())
         out.extend(self.emit_isa())
+        out.extend(self.emit_typed_allocs())
         out.extend(xprotos)
         out.extend(protos)
         out.extend(gdecl)
